@@ -45,6 +45,21 @@ def run(ctx):
             extra.append({"src": "find all exactly %d %s" % (n, body), "texts": long_texts})
             extra.append({"src": "find all 'x' at least %d %s ';'" % (n, body), "texts": long_texts})
             extra.append({"src": "find all between %d and %d %s 'b'" % (n, n + 2, body), "texts": long_texts})
+    # several stored patterns with DIFFERENT predicates asked about the same piece of text within one attempt (alternation, nesting, one after the other):
+    # each verdict belongs to its own predicate and its own candidate
+    preds = ["matchLength == 1", "matchLength == 2", "matchLength > 1", "match == 'a'", "match != 'ab'", "match < 'b'", "false", "true", "(match % 2) == 0", "(match % 3) == 0"]
+    pbodies = ["at least 1 letter", "at least 1 digit", "at least 1 in 'a', 'b'", "any maybe any"]
+    ptexts = [t for t in texts if len(t) <= 3] + ["4 9 8 12 7 10", "9y 6y 3x", "12 13 4 144", "ab a b aab", "a1 22 b 333"]
+    pairs = [(a, b) for a in preds for b in preds if a != b]
+    if quick:
+        pairs = ctx.rng.sample(pairs, 24)
+    for a, b in pairs:
+        body = ctx.rng.choice(pbodies) if quick else None
+        for bd in ([body] if quick else pbodies):
+            head = "set p to pattern %s begin return %s end\nset q to pattern %s begin return %s end\n" % (bd, a, bd, b)
+            for form in ("find all (p or q)", "find all ((p 'x') or (q 'y'))", "find all (q or p) maybe p", "find all p q", "find all maybe p q"):
+                extra.append({"src": head + form, "texts": ptexts})
+            extra.append({"src": "set p to pattern %s begin return %s end\nset q to pattern p begin return %s end\nfind all q or p" % (bd, a, b), "texts": ptexts})
     cases, gres, dis, stats = run_generated(ctx, 0, extra=extra)
     ctx.coverage["rule"] = ("grammar-generated programs (all constructs of the core language) x 6 texts biased to near-matches, plus programs of up to "
                             "%d constructors over 12 atoms x all texts over {a,b,\\n} up to length %d; each run compared at three layers (bytecode, model VM on "
